@@ -1423,6 +1423,24 @@ def reduce_ifexp(t: Term, atoms: Dict[Term, bool]) -> Term:
     return t
 
 
+def flatten_conds(conds: Sequence[Cond]) -> List[Cond]:
+    """Literals implied by a path condition: (a and b) true -> a, b true; (a or b) false -> a, b false; each literal in
+    positive form (x is not None -> (x is None, False))."""
+    out: List[Cond] = []
+
+    def add(t: Term, pol: bool) -> None:
+        b, flip = strip_not(t)
+        pol = pol != flip
+        if b[0] == "bool" and ((b[1] == "and") == pol):
+            for x in b[2]:
+                add(x, pol)
+        else:
+            out.append((b, pol))
+    for t, pol in conds:
+        add(t, pol)
+    return out
+
+
 def show_conds(conds: Sequence[Cond], interp: Optional[Interp] = None) -> str:
     return " and ".join(("" if pol else "not ") + show(c, interp) for c, pol in conds) or "always"
 
